@@ -45,6 +45,19 @@ def discover_roles(A):
         ce = inherent_callee(I, res)
         if ce is not None:
             roles[key] = ce.callee
+    if len(roles) < 2 and A.get('Alloc::realloc'):
+        # configurations without the Allocator impl: the private Alloc::realloc dispatches to the same two
+        # inherent methods; the one that raises the finger (RECLAIM store in its own frame) is the shrinker
+        I, res, body = A['Alloc::realloc']
+        cands = []
+        for e in res.events:
+            if e.kind == 'call' and len(e.stack) == 1 and e.callee:
+                b = I.db.by_path.get(e.callee)
+                if b and b['meta'].get('unsafe') and len(b['meta'].get('inputs') or []) == 4 and 'NonNull<u8>' in b['meta']['inputs'][1] and not b['meta'].get('impl_trait'):
+                    cands.append(e.callee)
+        for c in dict.fromkeys(cands):
+            raises = any(s.kind == 'store' and s.stack[-1][0] == c and arena.footer_field(s) and arena.footer_field(s)[1] == 'ptr' and arena.classify_finger_store(I, res, s) == 'RECLAIM' for s in res.events)
+            roles.setdefault('Allocator::shrink' if raises else 'Allocator::grow', c)
     return roles
 
 
@@ -132,6 +145,8 @@ def run(ctx, config='rel-all'):
                 ctx.violation('R1', 'Alloc::realloc', 'dispatch:' + role.split('::')[1], 'realloc calls %s with %s (guard established: %s)' % (arena.short(e.callee), [show(a)[:40] for a in e.args[1:]], guard), e.span)
         if roles and seen != set(roles):
             ctx.violation('R1', 'Alloc::realloc', 'dispatch:missing', 'realloc does not dispatch to both shrink and grow')
+    for k, v in discover_roles(A).items():
+        roles.setdefault(k, v)
     # ---- O2 alignment of results + chunk invariant at stores (shared machinery)
     specs = c04.entry_specs()
     for key in ('Allocator::allocate', 'Allocator::shrink', 'Allocator::grow', 'Allocator::grow_zeroed', 'Alloc::realloc', 'Allocator::deallocate', 'Alloc::dealloc'):
@@ -164,7 +179,7 @@ def run(ctx, config='rel-all'):
         I, res, body = val
         gfr = [e for e in res.events if e.kind == 'call' and e.callee == roles['Allocator::grow'] and len(e.stack) == 1]
         inner = [e for e in res.events if e.kind == 'call' and len(e.stack) == 2 and e.stack[1][0] == roles['Allocator::grow'] and e.args and len(e.args) == 2
-                 and e.args[1][0] == 'layout' and 'Option<std::ptr::NonNull<u8>>' in ((I.db.by_path.get(e.callee) or {}).get('meta', {}).get('output') or '')]
+                 and e.args[1][0] == 'layout' and ('Option<' in ((I.db.by_path.get(e.callee) or {}).get('meta', {}).get('output') or '') and 'NonNull<u8>' in ((I.db.by_path.get(e.callee) or {}).get('meta', {}).get('output') or ''))]
         if inner:
             e = inner[0]
             L = e.args[1]
@@ -219,7 +234,7 @@ def copy_discipline(ctx, A, roles, specs, RULE_NAME, floor):
         axioms = set(specs[key][1]) | set(c01.ENTRY_AXIOMS.get(key, ()))
         fresh_ptrs = []
         for e in res.events:
-            if e.kind == 'call' and e.callee and e.ret is not None and 'Result<std::ptr::NonNull<u8>' in ((I.db.by_path.get(e.callee) or {}).get('meta', {}).get('output') or '') and e.callee not in roles.values():
+            if e.kind == 'call' and e.callee and e.ret is not None and is_fallible_alloc(I, e.callee) and e.callee not in roles.values():
                 fresh_ptrs.append(I.project_variant(None, e.ret, 'Ok', '0'))
         for e in res.events:
             if e.kind != 'copy' or e.callee == 'fill':
@@ -255,6 +270,11 @@ def copy_discipline(ctx, A, roles, specs, RULE_NAME, floor):
     ctx.floor(RULE_NAME, ncopy, floor, 'copy sites in shrink/grow over the entry points')
 
 
+def is_fallible_alloc(I, callee):
+    out = ((I.db.by_path.get(callee) or {}).get('meta', {}).get('output') or '')
+    return 'Result<' in out and 'NonNull<u8>' in out
+
+
 def cur_footer(e):
     for k, v in e.state.mem.items():
         pass
@@ -266,8 +286,3 @@ def cur_footer(e):
     return ('opaque', 0, 'nofooter')
 
 
-def thorough(ctx):
-    sub = type(ctx)(ctx.pid, ctx.tier, ctx.seed)
-    sub.repo = ctx.repo
-    run(sub, 'rel-coll')
-    ctx.configs_used.extend(sub.configs_used)
